@@ -7,6 +7,16 @@ import common
 from common import Broken, Violation
 import tr_scales
 
+MANIFEST = {
+    "text": "Theorems over unbounded Z and all strings about the model REGENERATED from scales.py on every run "
+            "(total on 0..100, refusal outside, one-directional, label round trip, unknown labels refused, "
+            "= STIX 2.1 Appendix A tables); kernel-evaluated window check lifted to Z by a generic lemma.",
+    "design_ref": "DESIGN.md 6/C20",
+    "note": "Trusted: Coq kernel + vm_compute, tr_scales translator (validated by a full-domain sweep against the real "
+            "functions each run), the hand-written Appendix A tables in coq/Spec/ConfidenceSpec.v. No axioms.",
+    "technique": "Coq proof over a model translated from source + exhaustive sweep of the real functions",
+}
+
 SCALES = [
     ("nlmh", "value_to_none_low_medium_high", "none_low_med_high_to_value"),
     ("zero_ten", "value_to_zero_ten", "zero_ten_to_value"),
